@@ -15,6 +15,7 @@ import (
 	"reduction.dev/reduction/dkv/storage"
 	"reduction.dev/reduction/dkv/wal"
 	"reduction.dev/reduction/util/size"
+	"reduction.dev/reduction/util/verifhook"
 )
 
 var flushMemTablesQueue = bg.NewQueue(5)
@@ -198,6 +199,7 @@ func (db *DB) Get(key []byte) (kv.Entry, error) {
 	if err == nil {
 		return v, nil
 	}
+	verifhook.Point("dkv.get.between", db)
 
 	// Then try the SSTables. The sstables must be read after the memtables: a
 	// concurrent flush adds its table before it dequeues the memtable, so data
@@ -214,6 +216,7 @@ func (db *DB) ScanPrefix(prefix []byte, errOut *error) iter.Seq[kv.Entry] {
 	// delete still in a memtable masks the flushed put. The memtables are
 	// captured before the sstables so that a concurrent flush cannot hide data.
 	mtEntries := db.mtables.ScanPrefixEntries(prefix, errOut)
+	verifhook.Point("dkv.scan.between", db)
 	sstEntries := db.currentSSTables().ScanPrefixEntries(prefix, errOut)
 	return kv.WithoutDeletes(kv.MergeEntries([]iter.Seq[kv.Entry]{mtEntries, sstEntries}))
 }
@@ -229,9 +232,11 @@ func (db *DB) Checkpoint(ckptID uint64) (wait func() (recovery.CheckpointHandle,
 	db.mu.Unlock()
 
 	return bg.Task2(func() (recovery.CheckpointHandle, error) {
+		verifhook.Point("dkv.ckpt.walsave", db, ckptID)
 		if err := prevWAL.Save(); err != nil {
 			return recovery.CheckpointHandle{}, err
 		}
+		verifhook.Point("dkv.ckpt.listsave", db, ckptID)
 		uri, err := db.checkpoints.Save(db.fs)
 		if err != nil {
 			return recovery.CheckpointHandle{}, err
@@ -281,6 +286,7 @@ func (db *DB) rotateMemtable() {
 
 	// Write sealed tables to sstables
 	db.tasks.Enqueue(flushMemTablesQueue, func() error {
+		verifhook.Point("dkv.flush.begin", db)
 		sealedTables := db.mtables.Sealed()
 
 		cs := &sst.ChangeSet{}
@@ -294,23 +300,29 @@ func (db *DB) rotateMemtable() {
 
 		// Replace the set of sstables, clear old memtables, clear wal entries all
 		// in one lock
+		verifhook.Point("dkv.flush.swap", db)
 		db.mu.Lock()
 		db.sstables = db.sstables.NewWithChangeSet(cs)
 		db.mtables.Dequeue(sealedTables)
 		db.wal.Truncate(db.sstables.LatestSeqNum)
 		db.mu.Unlock()
+		verifhook.Point("dkv.flush.end", db)
 
 		// Run compact steps until there is no changeset
 		db.tasks.Enqueue(compactionQueue, func() error {
+			verifhook.Point("dkv.compact.begin", db)
 			for {
+				verifhook.Point("dkv.compact.iter", db)
 				cs, err := db.compactor.Compact(db.currentSSTables())
 				if err != nil {
 					return err
 				}
 				if cs == nil {
+					verifhook.Point("dkv.compact.end", db)
 					return nil
 				}
 
+				verifhook.Point("dkv.compact.swap", db)
 				db.mu.Lock()
 				db.sstables = db.sstables.NewWithChangeSet(cs)
 				db.mu.Unlock()
